@@ -201,6 +201,16 @@ def run_property(pid, tier, seed):
         except Exception as e:
             errors.append({"function": getattr(lem, "__name__", "lemma"), "error": f"{type(e).__name__}: {e}",
                            "traceback": traceback.format_exc()[-3000:]})
+    # cross-check of the VC generator's Python semantics against CPython (pyvc/selftest): guards every run against an unsound
+    # engine; a mismatch is a checker error, never a verdict about the repository
+    selftest_res = None
+    try:
+        from pyvc.selftest.run import run as _selftest
+        selftest_res = _selftest()
+        for f in selftest_res["failures"][:5]:
+            errors.append({"function": "pyvc selftest", "error": f"symbolic execution disagrees with CPython: {f}"})
+    except Exception as e:
+        errors.append({"function": "pyvc selftest", "error": f"{type(e).__name__}: {e}", "traceback": traceback.format_exc()[-2000:]})
     # bounded conformance tests of the assumed contracts this property rests on (never counted as proved)
     conf_results = []
     if spec.get("conformance"):
@@ -217,6 +227,34 @@ def run_property(pid, tier, seed):
     spec["bounded"] = list(spec.get("bounded", [])) + [
         {"what": cr["what"], "bound": cr["bound"], "cases": cr["cases"], "failures": len(cr["failures"]),
          "role": "conformance test of an ASSUMED contract (stub) against the real library/OS; not part of the proof"} for cr in conf_results]
+    # thorough tier: additionally run the concrete scenario sweep on the real handlers (a BOUNDED exploration, never counted as
+    # proved; a failing scenario is a violation with a replayable input)
+    sweep_hit = None
+    if tier == "thorough":
+        try:
+            from contracts import concrete_handlers as CH
+            if pid in CH.ACCEPT:
+                orc = CH.HandlerOracle("thorough-sweep")
+                t1 = time.time()
+                case = orc.search({}, 600, None, pid=pid)
+                n_cases = getattr(orc, "searched", None)
+                spec["bounded"].append({
+                    "what": "concrete scenario sweep of the real SourceHandler/DestHandler pair (contracts/sim.py), monitors of " + pid,
+                    "bound": CH.HandlerOracle.scope, "cases": n_cases if n_cases is not None else "stopped at the first failing scenario",
+                    "failures": 0 if case is None else 1, "seconds": round(time.time() - t1, 1),
+                    "role": "bounded exploration in addition to the discharged obligations; not part of the proof"})
+                if case is not None:
+                    ok, detail = orc.run(case)
+                    if not ok:
+                        sweep_hit = (case, detail)
+        except Exception as e:  # the sweep is auxiliary: its own failure is a checker error, never a violation
+            errors.append({"function": "scenario sweep", "error": f"{type(e).__name__}: {e}", "traceback": traceback.format_exc()[-2000:]})
+    if selftest_res is not None:
+        spec["bounded"].append({
+            "what": "engine cross-check: symbolic execution of pyvc/selftest/snippets.py (short-circuit operands, optionals, tuples, dicts, "
+                    "lists, loops, exceptions, min/max, //, %) against CPython",
+            "bound": f"{selftest_res['functions']} snippets x 49 integer argument pairs", "cases": selftest_res["cases"],
+            "failures": len(selftest_res["failures"]), "role": "self-test of the verifier; not part of the proof"})
     for e in errors:
         print(f"CHECKER-ERROR property={pid} function={e['function']} {e['error']}")
         if os.environ.get("VERIF_DEBUG"):
@@ -311,6 +349,16 @@ def run_property(pid, tier, seed):
         tail = "" if confirmed else " no-failing-input-found"
         print(f"VIOLATION property={pid} replay={path} obligation={ob['name']} verdict={f0['verdict']}{tail}")
         rc = 1   # a violation derived from a completely analysed function stands whatever else could not be analysed
+    if sweep_hit is not None:
+        name = f"scenario-sweep::{pid}"
+        path = os.path.join(replay_base, pid, sanitize(name) + ".json")
+        with open(os.path.join(HERE, path), "w") as fh:
+            json.dump({"property": pid, "obligation": name, "kind": "bounded-sweep", "function": "cfdppy.handler (both handlers)",
+                       "verdict": "failing scenario on the real handlers", "solver_output": None,
+                       "replay": {"confirmed": True, "oracle": "cfdppy.handler.dest.DestHandler.state_machine", "case": sweep_hit[0],
+                                  "observed": sweep_hit[1]}, "rerun": f"./check replay {path}"}, fh, indent=1, default=str)
+        print(f"VIOLATION property={pid} replay={path} obligation={name} verdict=concrete-failing-input")
+        violations.append(({"function": "scenario sweep"}, {"name": name}))
     if violations:
         rc = 1
     elif errors and any(e.get("function", "").startswith("cfdppy.") for e in errors):
@@ -427,6 +475,9 @@ def main(argv=None):
     if a.what == "replay":
         from pyvc.replay import replay_file
         return replay_file(a.path)
+    if a.what == "selftest":
+        from pyvc.selftest.run import main as st_main
+        return st_main()
     if a.what == "all":
         from contracts.properties import PROPERTIES
         rc = 0
